@@ -1520,16 +1520,46 @@ def ttno_layout(chk, src):
                 bad.append(f"{nch} children, {k} basis sets: axes {got}, expected {want}")
     chk.ob("layout", "symbolic_mo_to_numeric_mo_general: children, (row, col)*, parent", not bad, fi.where, bad[:2] or "12 (arity, basis-count) combinations", "children..., (p, p) per basis set..., parent",
            line=ret[0].lineno, detail="the bond to the parent must be moved behind the physical axes for every number of children and basis sets: " + (bad[0] if bad else ""))
-    # 2. row index first: op_mat(...)[None, :, :, None] appended by tensordot(axes=1); block stripped of its two unit axes
-    td = [c for c in ast.walk(fi.node) if isinstance(c, ast.Call) and unparse(c.func) == "np.tensordot"]
-    ok = len(td) == 1 and unparse(td[0].args[0]) == "mo_elem" and unparse(td[0].args[1]).replace(" ", "").endswith(".op_mat(symbol)[None,:,:,None]") and \
-        [unparse(k_.value) for k_ in td[0].keywords if k_.arg == "axes"] == ["1"]
-    acc = [norm_stmt(s, 60) for s in ast.walk(fi.node) if isinstance(s, ast.AugAssign) and unparse(s.target).startswith("mo_tensor[")]
-    chk.ob("layout", "local matrices appended as (row, column), basis sets in order", ok and acc == ["mo_tensor[i] += mo_elem[0, ..., 0]"], fi.where, {"tensordot": [unparse(c)[:80] for c in td], "accumulate": acc},
-           "np.tensordot(mo_elem, b.op_mat(symbol)[None, :, :, None], axes=1); mo_tensor[i] += mo_elem[0, ..., 0]", line=fi.node.lineno,
-           detail="each basis set contributes its matrix as (row, column) = (up, down) in basis-set order; a transposed or reordered block gives the transposed operator on that index")
-    z = [unparse(s.iter).replace(" ", "") for s in ast.walk(fi.node) if isinstance(s, ast.For) and "term_split" in unparse(s.iter)]
-    chk.ob("layout", "split symbols paired with basis sets in order", z == ["zip(term_split,basis_sets)"], fi.where, z, "zip(term_split, basis_sets)", line=fi.node.lineno)
+    # 2. provenance of the local matrices: an abstract run of the conversion on symbolic basis sets, twice in one "process" (module-level
+    #    names persist between the runs) with different basis objects of the same class and size
+    it = SymInterp(src, None, {})
+    problems = []
+    n_blocks = 0
+    # the operator symbols are the same (equal) objects in both runs: Op compares by value
+    terms = [_TermSym(f"t{q}", [_OpSym(f"sym{q}.{j}") for j in range(3)]) for q in range(2)]
+    for run in (1, 2):
+        bsets = [_BasisSym(f"b{j}@run{run}", "BasisSHO", "nbas") for j in range(3)]
+        mo = _MoSym([((0, 0), [terms[0], terms[1]]), ((0, 1), [terms[1]])], ndim=2, shape=("in0", "out"))
+        acc = _Acc()
+
+        def tensordot(a_, b_, axes=None):
+            if not isinstance(a_, _Elem) or axes != 1:
+                raise AnalysisError("tensordot in symbolic_mo_to_numeric_mo_general outside the fragment")
+            return _Elem(a_.blocks + [b_], a_.factor)
+        it.builtins.update({"Model": lambda basis, terms_: Sym("model", dof_to_siteidx="dof_to_siteidx"), "chain": lambda *a_: [x for p_ in a_ for x in p_],
+                            "np": Sym("np", zeros=lambda shape, dtype=None: acc, ndenumerate=lambda m: list(m.entries), eye=lambda n: _Elem([], None),
+                                      tensordot=tensordot, iscomplexobj=lambda x: False, moveaxis=lambda t, a_, b_: ("moved", t))})
+        it.call_function(fi, [bsets, mo, "dtype"])
+        for (idx, terms_here) in mo.entries:
+            got = acc.cells.get(idx, [])
+            if len(got) != len(terms_here):
+                problems.append(f"run {run}: entry {idx} accumulates {len(got)} blocks for {len(terms_here)} terms")
+                continue
+            for term, elem in zip(terms_here, got):
+                want = [(b_._name, o._name) for o, b_ in zip(term.ops, bsets)]
+                have = []
+                for blk in (elem.blocks if isinstance(elem, _Elem) else []):
+                    if isinstance(blk, _OpMatSlice) and blk.key == (None, "ALL", "ALL", None):
+                        have.append((blk.basis._name, blk.symbol._name))
+                    else:
+                        have.append(repr(blk))
+                n_blocks += len(have)
+                if have != want or not (isinstance(elem, _Elem) and elem.stripped and elem.factor == term.factor):
+                    problems.append(f"run {run}, entry {idx}, term {term!r}: blocks {have}, expected {want} (each as op_mat(symbol)[None, :, :, None], scaled by the term's factor, unit axes stripped)")
+    chk.ob("layout", "local matrices: op_mat of *this* basis set and *this* symbol, (row, column), basis sets in order", not problems and n_blocks == 18, fi.where, problems[:2] or f"{n_blocks} blocks in 2 consecutive runs",
+           "b.op_mat(symbol)[None, :, :, None] for (symbol, b) in zip(term_split, basis_sets), accumulated per entry", line=fi.node.lineno,
+           detail="each basis set contributes the matrix of its own operator symbol, computed from that basis set's parameters, as (row, column) = (up, down) in basis-set order: " +
+                  (problems[0] if problems else "") + " - a transposed / reordered block gives another operator; a value remembered from an earlier basis object makes the second operator built in a process wrong")
     # 3. compose: in-indices = leading symbols, physical = last k symbols
     cs = src.func(TTNOB, "compose_symbolic_mo_general")
     subs = sorted({unparse(n.slice).replace(" ", "") for n in ast.walk(cs.node) if isinstance(n, ast.Subscript) and unparse(n.value) == "composed_op.symbol"})
@@ -1566,9 +1596,163 @@ def ttno_layout(chk, src):
             chk.ob("layout", f"Tree.{kind}order_list [{topo}]", ok, fi2.where, [repr(n) for n in out], f"{kind}-order, children left to right", line=fi2.node.lineno)
 
 
+class _BasisSym(Sym):
+    def __init__(self, name, cls, nbas):
+        super().__init__(name)
+        self.__dict__["__class__"] = cls
+        self.nbas = nbas
+
+    def op_mat(self, symbol):
+        return _OpMat(self, symbol)
+
+
+class _OpMat(Sym):
+    def __init__(self, basis, symbol):
+        super().__init__(f"op_mat({basis!r},{symbol!r})")
+        self.basis, self.symbol = basis, symbol
+
+    def __getitem__(self, k):
+        key = tuple((None if x is None else "ALL" if x == slice(None, None, None) else repr(x)) for x in (k if isinstance(k, tuple) else (k,)))
+        return _OpMatSlice(self.basis, self.symbol, key)
+
+
+class _OpMatSlice(Sym):
+    def __init__(self, basis, symbol, key):
+        super().__init__(f"op_mat({basis!r},{symbol!r})[{key}]")
+        self.basis, self.symbol, self.key = basis, symbol, key
+
+
+class _OpSym(Sym):
+    pass
+
+
+class _TermSym(Sym):
+    def __init__(self, name, ops):
+        super().__init__(name)
+        self.ops = ops
+        self.factor = f"factor({name})"
+
+    def split_elementary(self, d2s):
+        return list(self.ops), self.factor
+
+
+class _MoSym(Sym):
+    def __init__(self, entries, ndim, shape):
+        super().__init__("mo")
+        self.entries, self.ndim, self.shape = entries, ndim, shape
+
+
+class _Elem(Sym):
+    def __init__(self, blocks, factor, stripped=False):
+        super().__init__("elem")
+        self.blocks, self.factor, self.stripped = list(blocks), factor, stripped
+
+    def __mul__(self, f):
+        return _Elem(self.blocks, f, self.stripped)
+
+    def __getitem__(self, k):
+        if isinstance(k, tuple) and len(k) == 3 and k[0] == 0 and k[1] is Ellipsis and k[2] == 0:
+            return _Elem(self.blocks, self.factor, True)
+        raise AnalysisError("indexing of the accumulated local operator outside the fragment")
+
+
+class _Acc(Sym):
+    def __init__(self):
+        super().__init__("mo_tensor")
+        self.cells = {}
+
+    def __getitem__(self, i):
+        return _Cell(list(self.cells.get(i, [])))
+
+    def __setitem__(self, i, v):
+        self.cells[i] = v.items
+
+
+class _Cell:
+    def __init__(self, items):
+        self.items = items
+
+    def __add__(self, o):
+        return _Cell(self.items + [o])
+
+
 def _mv(t, a, b):
     t = list(t)
     n = len(t)
     x = t.pop(a % n)
     t.insert(b % n, x)
     return t
+
+
+# ---------------------------------------------------------------------------------------------- RDMs of single degrees of freedom (partial traces with integer labels)
+def dof_rdm(chk, src, topologies=("ternary", "generic")):
+    chk.rule("dof-rdm", "calc_1dof_rdm / calc_2dof_rdm: the site RDM (ket indices then bra indices, nodes in the requested order) is traced over every physical index except the "
+             "requested ones - ket and bra of the same index share a label, the requested indices keep (ket1[, ket2], bra1[, bra2])", 10)
+    f1 = src.func(TREE, "TTNS.calc_1dof_rdm")
+    f2 = src.func(TREE, "TTNS.calc_2dof_rdm")
+    for topo in topologies:
+        w = World(src, topology=topo)
+        nodes = w.snodes
+        dofs = [(n, k) for n in nodes for k in range(n.nsets)]
+        dofname = {(n._name, k): f"{n._name}.s{k}" for n, k in dofs}
+        bsets = {d: Sym(f"basis({d})") for d in dofname.values()}
+        bnodes = [Sym(f"bn({n})", n_sets=n.nsets, basis_sets=[bsets[dofname[(n._name, k)]] for k in range(n.nsets)], pbond_dims=[Blob("d")] * n.nsets) for n in nodes]
+        basis = Sym("basis", dof2idx={dofname[(n._name, k)]: n.idx for n, k in dofs}, dof2basis={d: b for d, b in bsets.items()}, node_list=bnodes, dof_list=list(dofname.values()))
+
+        def site_legs(idxs):
+            ns = [nodes[i] for i in idxs]
+            return [("kphys", n._name, k) for n in ns for k in range(n.nsets)] + [("bphys", n._name, k) for n in ns for k in range(n.nsets)]
+
+        def decide(fi, key, rec, targets, site_idxs):
+            args = rec[-1]
+            t, labels, out = args[0], list(args[1]), list(args[2])
+            probs = []
+            if len(labels) != len(t.legs):
+                probs.append(f"{len(labels)} labels for {len(t.legs)} axes")
+            lab_of = {}
+            for leg, lab in zip(t.legs, labels):
+                lab_of.setdefault(lab, []).append(leg)
+            want_out = [("kphys",) + d for d in targets] + [("bphys",) + d for d in targets]
+            got_out = []
+            for lab in out:
+                legs = lab_of.get(lab, [])
+                if len(legs) != 1:
+                    probs.append(f"output label {lab} is on {len(legs)} axes")
+                got_out.append(legs[0] if legs else None)
+            for lab, legs in lab_of.items():
+                if lab in out:
+                    continue
+                if len(legs) != 2 or legs[0][1:] != legs[1][1:] or {legs[0][0], legs[1][0]} != {"kphys", "bphys"}:
+                    probs.append(f"label {lab} joins {legs}: a traced index must join the ket and bra axis of one physical index")
+            ok = not probs and got_out == want_out
+            chk.ob("dof-rdm", key, ok, fi.where, probs[:2] or got_out, want_out, line=fi.node.lineno,
+                   detail=f"{key}: " + (probs[0] if probs else "the kept axes are not the requested degrees of freedom in (ket..., bra...) order") +
+                          " - wrong only when nodes carry different numbers of basis sets or the degree of freedom is not the first of its node")
+        # ---- one dof
+        loop = [s for s in f1.node.body if isinstance(s, ast.For)][-1]
+        for n, k in dofs:
+            if n.nsets == 1 and n.idx not in (0, 1):
+                continue
+            rec = []
+            it = SymInterp(src, None, {"oe_contract": lambda *a: rec.append(a) or Blob("res"), "list": list})
+            d = dofname[(n._name, k)]
+            env = {"self": Sym("ttns", basis=basis), "dof_list": [d], "rdm_site_dict": SymDict(lambda i: T("rdm", site_legs([i]))), "rdm_dof_dict": {}}
+            it.block([loop], env, f1)
+            decide(f1, f"calc_1dof_rdm [{topo}: {d}]", rec, [(n._name, k)], [n.idx])
+        # ---- two dofs
+        loops = [s for s in f2.node.body if isinstance(s, ast.For)]
+        loop = loops[-1]
+        pairs = [(a, b) for a in dofs for b in dofs if a != b and (a[0].nsets > 1 or b[0].nsets > 1 or (a[0].idx, b[0].idx) in ((0, 1), (1, 0)))]
+        for (n1, k1), (n2, k2) in pairs:
+            rec = []
+            it = SymInterp(src, None, {"oe_contract": lambda *a: rec.append(a) or Blob("res")})
+            d1, d2 = dofname[(n1._name, k1)], dofname[(n2._name, k2)]
+            env = {"self": Sym("ttns", basis=basis), "dofs": [(d1, d2)], "rdm_": {},
+                   "rdm_1sites": SymDict(lambda i: T("rdm1", site_legs([i]))), "rdm_2sites": SymDict(lambda ij: T("rdm2", site_legs(list(ij))))}
+            try:
+                it.block([loop], env, f2)
+            except (IndexError, ValueError) as e:
+                chk.ob("dof-rdm", f"calc_2dof_rdm [{topo}: {d1},{d2}]", False, f2.where, f"{type(e).__name__}: {e}", "a partial trace", line=f2.node.lineno,
+                       detail=f"calc_2dof_rdm({d1}, {d2}) indexes outside the RDM's axes")
+                continue
+            decide(f2, f"calc_2dof_rdm [{topo}: {d1},{d2}]", rec, [(n1._name, k1), (n2._name, k2)], [n1.idx, n2.idx])
